@@ -1007,6 +1007,9 @@ func (e *Env) typed(tv TV) TV {
 	if tv.ty == nil || tv.t == "" {
 		return tv
 	}
+	if e.g.recording != nil {
+		return tv // probing an opaque function body: no facts
+	}
 	if !(isInt(tv.ty) || isSlice(tv.ty)) || tv.ty == tyInt {
 		return tv
 	}
